@@ -450,7 +450,7 @@ func main() {
 			}
 			mbHashes = append(mbHashes, hash)
 		}
-		maxLen := c.Pick(4, 5)
+		maxLen := c.Pick(5, 6)
 		evNames := []string{}
 		for _, e := range menu {
 			evNames = append(evNames, e.name)
